@@ -39,7 +39,9 @@ def make_package(ctx, rng, d):
     n_bands = int(rng.integers(2, 9))
     names = gen.model_names(rng, n_models)
     wav = gen.band_wavelengths(rng, n_bands)
-    style = str(rng.choice(['v1', 'v1multi', 'v2name', 'v2wav']))
+    # ('v1multi' - multi-aperture files in a package declared aperture-independent - is self-contradictory and outside the statement:
+    #  it is no longer generated)
+    style = str(rng.choice(['v1', 'v1', 'v2name', 'v2wav']))
     fmt = str(rng.choice(['D', 'E']))
     grid = gen.conv_grid(rng, n_models, n_bands, decades=float(rng.choice([1.0, 3.0, 20.0])))
     if fmt == 'E':
@@ -151,12 +153,19 @@ def run(ctx):
                   (round(ac + float(rng.normal(0, 3)), 2),) * 2, (-30.0, -1.0 - r_), (0, 40), (0.0, np.inf)]
         fitters = []
         try:
-            for (lo, hi) in ranges:
-                fitters.append(gen.make_fitter(filt, np.ones(nb), d, law, (lo, hi), use_memmap=memmap))
+            for (lo, hi) in list(ranges):
+                try:
+                    fitters.append(gen.make_fitter(filt, np.ones(nb), d, law, (lo, hi), use_memmap=memmap))
+                except Exception:
+                    if not np.isfinite(hi):          # "any A_V range" need not include an infinite bound: a refusal is recorded only
+                        ranges.remove((lo, hi))
+                        ctx.event('range-with-infinite-bound-refused')
+                    else:
+                        raise
             # single-precision storage is observed on the fitter (which formats/switches use it is an implementation choice)
-            delta = 3e-7 * (1 + float(np.max(np.abs(logm)))) if any(fitcheck.holds_float32(f_) for f_ in fitters) else 0.0
+            delta = 3e-7 * (1 + float(np.max(np.abs(logm)))) if ((memmap and is_v2) or any(fitcheck.holds_float32(f_) for f_ in fitters)) else 0.0
         except Exception as exc:
-            ctx.violation('fit2d:fitter-construction-failed',
+            ctx.raised(exc, 'fit2d:fitter-construction-failed',
                           'Fitter() raised on a well-formed package: %r' % (exc,), dict(pinfo, wav=wav))
             ctx.rmdir(d)
             continue
@@ -169,7 +178,7 @@ def run(ctx):
             try:
                 fitter.fit(src)
             except Exception as exc:
-                ctx.violation('fit2d:fit-raised', 'Fitter.fit raised inside the quantifier: %r' % (exc,), wit)
+                ctx.raised(exc, 'fit2d:fit-raised', 'Fitter.fit raised inside the quantifier: %r' % (exc,), wit)
                 return None
             sm = CUR.get('summary')
             ctx.case(key, nontrivial=sm is not None,
@@ -227,7 +236,9 @@ def run(ctx):
         if PREV_DIR:
             ctx.rmdir(PREV_DIR.pop())
         del PREV[:]
-        if last is not None:
+        if last is not None and not (SHARED_LAW and law is SHARED_LAW[0]):
+            # (a fitter built from the shared law object is not carried over: that object is about to be given another table, and
+            #  whether a live fitter follows later changes of the law object it was built from is not part of the statement)
             PREV.append(last)
             PREV_DIR.append(d)       # keep the package on disk while its fitter is still in use
         else:
